@@ -1,4 +1,6 @@
 import ColoVerif.Proofs.GridGroup
+import ColoVerif.Proofs.GridCircuit
+import ColoVerif.Proofs.GridSched
 /-
 C16 — density bins account for all free area; every cell is in exactly one bin.
 
@@ -6,8 +8,14 @@ All statements are about the definitions of `ColoVerif/Model/Grid.lean`, which `
 executes against the C++ (`harness/h_C16.cpp`).  Predicates (`RectValid`, `overlap`, `InsideLimits`,
 `HierOk`, `ParOk`, `AllocInv`) are spelled out in `Proofs/GridDefs.lean`.
 
-Not proved here (see tools/props/C16.py PARTIAL): that the real float-driven passes are instances of the
-skeleton steps (checked per explored call by the correspondence), and `coords_in_bin` (C06).
+`circuit_grid_capacity_is_free_area` discharges the hypotheses of `capacity_conserved` for the grids
+`fromIspdCircuit` builds (helper lemmas: `Proofs/GridCircuit.lean`, on top of C15's interval lemmas);
+`schedule_ops_preserve_alloc` instantiates `alloc_inv` on the schedules of the public passes
+(`Model/GridSched.lean`, tied to the code call by call through the op-log hook H4).
+
+Not proved here (see tools/props/C16.py PARTIAL): that the real float-driven calls are instances of the
+skeleton steps and that the real passes follow the schedule model (both checked per explored call by the
+correspondence), and `coords_in_bin` (C06).
 -/
 namespace ColoVerif.C16
 open ColoVerif ColoVerif.Grid
@@ -111,7 +119,109 @@ theorem alloc_inv_cellwise (binSize : Int) (regions : List Rect) (demand : List 
   rw [hd] at this
   exact this
 
+/-- **Capacity = free row area, for circuits.**  For a circuit whose rows have the C01 domain shape
+(`RowsDom`: uniform positive row height, rows pairwise non-intersecting, non-empty x-ranges — the row part of
+`C01.Dom`, verbatim) and a non-negative `sideMargin` (mantissa ≥ 0), any cells, any obstructions, any
+`sizeFactor`: the regions `DensityGrid::fromIspdCircuit` hands to the constructor — the free segments of
+`Circuit::computeRows` (C15) wider than twice the margin, shortened by the margin on both sides; with the
+code's fallbacks when that leaves nothing — are a non-empty list of valid rectangles, pairwise
+non-intersecting, all inside the area spanned by the grid limits.  Hence, without side conditions:
+the total capacity is the sum of the areas of the clipped free segments; the capacity of every bin is the sum
+over the segments of area(segment ∩ bin), which — the segments being disjoint — is the number of unit
+squares of the bin that lie in a clipped free segment (`coveredArea`). -/
+theorem circuit_grid_capacity_is_free_area (c : Circuit) (sfMant sfExp smMant smExp : Int)
+    (hd : RowsDom c) (hm : 0 ≤ smMant) :
+    let margin := floatMulTrunc smMant smExp (minCellHeight c)
+    let R := ispdRegions c margin
+    let g := DGrid.fromIspdCircuit c sfMant sfExp smMant smExp
+    0 ≤ margin ∧
+    (clippedRows c.computeRows margin ≠ [] → R = clippedRows c.computeRows margin) ∧
+    (∀ q, q ∈ clippedRows c.computeRows margin ↔ ∃ s ∈ c.computeRows, 2 * margin < s.rect.width ∧
+      q = ⟨s.rect.minX + margin, s.rect.maxX - margin, s.rect.minY, s.rect.maxY⟩) ∧
+    R ≠ [] ∧ (∀ r ∈ R, RectValid r) ∧ R.Pairwise (fun a b => a.intersects b = false) ∧
+    (∀ r ∈ R, InsideLimits g.limX g.limY r) ∧
+    g.totalCapacity = (R.map Rect.area).sum ∧
+    (∀ i j, i < g.nbX → j < g.nbY →
+      g.binCapacity i j = (R.map fun r => overlap r (g.region i j)).sum ∧
+      g.binCapacity i j = coveredArea R (g.region i j)) := by
+  intro margin R g
+  have hm' : 0 ≤ margin := floatMulTrunc_nonneg _ _ _ hm (Int.le_of_lt (minCellHeight_pos c))
+  obtain ⟨hne, hv, hp⟩ := ispdRegions_ok c margin hd hm'
+  have hg : g = DGrid.ofRegions (floatMulTrunc sfMant sfExp (minCellHeight c)) R := rfl
+  obtain ⟨hin, hx0, hx1, hX, hy0, hy1, hY, htot⟩ :=
+    ofRegions_ok (floatMulTrunc sfMant sfExp (minCellHeight c)) R hne hv
+  rw [← hg] at hx0 hx1 hX hy0 hy1 hY htot
+  refine ⟨hm', ispdRegions_main c margin, mem_clippedRows _ margin, hne, hv,
+    hp.imp (fun h => (disj_iff_intersects _ _).mp h), ?_, htot, ?_⟩
+  · intro r hr
+    obtain ⟨a1, a2, a3, a4⟩ := hin r hr
+    simp only [InsideLimits, headD_of_head? _ _ hx0, getLastD_of_getLast? _ _ hx1, headD_of_head? _ _ hy0,
+      getLastD_of_getLast? _ _ hy1]
+    exact ⟨a1, a2, a3, a4⟩
+  · intro i j hi hj
+    have hi' : i + 1 < g.limX.length := by simp only [DGrid.nbX] at hi; omega
+    have hj' : j + 1 < g.limY.length := by simp only [DGrid.nbY] at hj; omega
+    have e1 : g.binCapacity i j = (R.map fun r => overlap r (g.region i j)).sum := by
+      rw [hg, ofRegions_binCapacity _ R i j (by rw [← hg]; exact hi) (by rw [← hg]; exact hj), ← hg]
+      exact binCap_eq_overlap g.limX g.limY R hX hY hv i j hi' hj'
+    refine ⟨e1, ?_⟩
+    rw [e1]
+    exact sum_overlap_eq_covered R hp _ (regionOf_valid g.limX g.limY hX hY i j hi' hj')
+
+/-- **Every schedule of a public pass preserves the allocation invariant.**  `passCalls p v choices pass` is the
+list of private redistribution calls and level changes that `improve()` / `refine()` / `run()` /
+`runCoarsening()` / `runRefinement()` make when started in view `v` with integer parameters `p` (and, for the
+first loop of `runCoarsening`, float decisions `choices`): which bin groups are visited, in which order —
+line / square / diagonal windows with the sizes, strides and overlaps of the parameters, neighbour pairs after
+a refinement.  Whatever fills the float-dependent holes of the calls (`holes`: sort order and split of every
+`rebisect`, assignment vector of every `reoptimize`, assignments of every transport row/column), after any
+history `ops`, the state after the pass satisfies `AllocInv` — a direct corollary of `alloc_inv`, which
+holds for every operation list.  Moreover the view after the pass is the one the schedule alone determines
+(holes do not influence the control flow). -/
+theorem schedule_ops_preserve_alloc (g : DGrid) (demand : List Int) (hx : 1 ≤ g.nbX) (hy : 1 ≤ g.nbY)
+    (ops : List Op) (p : LegParams) (pass : Pass) (choices : List (Bool × Bool)) (holes : Nat → Hole) :
+    let s := (HState.init g demand).run ops
+    let s' := s.run (fill (passCalls p s.view choices pass) holes)
+    AllocInv s' ∧ s'.view = s.view.run (passCalls p s.view choices pass) := by
+  intro s s'
+  refine ⟨?_, run_fill_view _ s holes⟩
+  show AllocInv (((HState.init g demand).run ops).run _)
+  rw [← run_append]
+  exact alloc_inv g demand hx hy _
+
+/-- The bin groups of the schedules are well-formed (`Call.WF`): every `reoptimize` of `improve()` — square,
+line and diagonal windows, clipped at the border — and of `improveSquareNeighbours` names pairwise distinct
+bins of the current `nbX × nbY` view, and every `rebisect` of `improveX/YNeighbours` two different bins of the
+view.  So the admissibility test of the skeleton (`redistOk`: distinct bins inside the view) never fails
+because of the schedule, for any parameters (accepted by the parameter check or not). -/
+theorem schedule_calls_wellformed (p : LegParams) (v : View) (sameX sameY : Bool) :
+    (∀ c ∈ Sched.improve p v, c.WF v.nbX v.nbY) ∧
+    (∀ c ∈ Sched.improveXNeighbours v sameX, c.WF v.nbX v.nbY) ∧
+    (∀ c ∈ Sched.improveYNeighbours v sameY, c.WF v.nbX v.nbY) ∧
+    (∀ c ∈ Sched.improveSquareNeighbours v sameX sameY, c.WF v.nbX v.nbY) :=
+  ⟨improve_wf p v, improveXNeighbours_wf v sameX, improveYNeighbours_wf v sameY,
+   improveSquareNeighbours_wf v sameX sameY⟩
+
 /-! ### non-vacuity / sanity -/
+
+/-- a circuit of the domain of `circuit_grid_capacity_is_free_area`: two abutting rows of height 4, an
+obstruction cutting the lower one; margin 1 (`sideMargin` 0.25 = 1·2⁻², cell height 4), bin size 8 -/
+def demoCircuit : Circuit :=
+  ⟨[⟨2, 4, 0, 0, .N, false, true, .ANY⟩, ⟨3, 4, 8, 0, .N, true, true, .ANY⟩], [],
+   [⟨⟨0, 20, 0, 4⟩, .N⟩, ⟨⟨0, 20, 4, 8⟩, .FS⟩]⟩
+
+example : RowsDom demoCircuit := by decide
+example : ispdRegions demoCircuit (floatMulTrunc 1 (-2) (minCellHeight demoCircuit)) =
+    [⟨1, 7, 0, 4⟩, ⟨12, 19, 0, 4⟩, ⟨1, 19, 4, 8⟩] := by decide
+example : DGrid.fromIspdCircuit demoCircuit 2 0 1 (-2) = ⟨[1, 10, 19], [0, 8], [[60], [64]]⟩ := by decide
+example : coveredArea [⟨1, 7, 0, 4⟩, ⟨12, 19, 0, 4⟩, ⟨1, 19, 4, 8⟩] ⟨10, 19, 0, 8⟩ = 64 := by decide
+
+/-- the schedule of `improve()` on a 3 × 2 view: lines of 2 with overlap 1, one step, no square/diagonal pass -/
+example : Sched.improveStep ⟨1, 2, 1, 1, 1, 1, 1, false⟩ 3 2 =
+    [.reoptimize [(0, 0), (1, 0)], .reoptimize [(0, 1), (1, 1)], .reoptimize [(2, 0)], .reoptimize [(2, 1)],
+     .reoptimize [(0, 0), (0, 1)], .reoptimize [(1, 0), (1, 1)], .reoptimize [(2, 0), (2, 1)],
+     .reoptimize [(1, 0), (2, 0)], .reoptimize [(1, 1), (2, 1)],
+     .reoptimize [(0, 1)], .reoptimize [(1, 1)], .reoptimize [(2, 1)]] := by decide
 
 /-- hypotheses of `capacity_conserved` are satisfiable and the conclusion is the expected number -/
 example : ((capacities [0, 5, 10] [0, 4] [⟨0, 10, 0, 2⟩, ⟨2, 7, 2, 4⟩]).map List.sum).sum = 30 := by decide
